@@ -4,6 +4,7 @@ import (
 	"encoding/json"
 	"fmt"
 	"strings"
+	"sync"
 
 	"github.com/influxdata/influxql"
 
@@ -95,17 +96,16 @@ func c01run(r *ev.Run) {
 // runGrammar explores the grammar under each bound set with a body returning (text, form, findings, skipped).
 func runGrammar(r *ev.Run, sets []boundSet, body func(c *xplore.Ctx) (string, string, []ev.Finding, bool)) {
 	forms := map[string]int64{}
-	fm := make(chan struct{}, 1)
-	fm <- struct{}{}
+	var fm sync.Mutex
 	var skipped int64
 	var names []string
 	for _, bs := range sets {
 		ex := &xplore.Explorer{Bounds: bs.bounds, Workers: r.Workers, Body: func(c *xplore.Ctx) {
 			text, form, fs, skip := body(c)
 			if skip {
-				<-fm
+				fm.Lock()
 				skipped++
-				fm <- struct{}{}
+				fm.Unlock()
 				return
 			}
 			n := r.Eval()
@@ -117,9 +117,9 @@ func runGrammar(r *ev.Run, sets []boundSet, body func(c *xplore.Ctx) (string, st
 				r.Report(f)
 			}
 			if r.State(astx.HashString(text), accepted) {
-				<-fm
+				fm.Lock()
 				forms[form]++
-				fm <- struct{}{}
+				fm.Unlock()
 			}
 			r.Sample(n, func() interface{} { return text })
 		}}
